@@ -269,6 +269,12 @@ func (w *World) finalOracle(name string) {
 	if len(r.afterT) > 0 {
 		w.ex.Fail("callback-after-terminate", "%s: %v began after Terminate", name, r.afterT)
 	}
+	// "after its last other callback": Terminate must not begin while another callback is still executing
+	for _, o := range r.overlaps {
+		if strings.HasPrefix(o, "T:") {
+			w.ex.Fail("terminate-before-last-callback-ended", "%s: Terminate (%s) began while another callback of the process was still executing; log=%v", name, o, r.log)
+		}
+	}
 }
 
 func handled(r *rec, prefix string) []string {
